@@ -37,9 +37,57 @@ def run_ao_meta(sc):
             pass
 
 
+def run_defer_in_actions(sc):
+    """entry / exit actions that run as part of a transition defer (or post) an event of another name: the record of
+    the step names the event that caused the transition"""
+    from miros.hsm import HsmWithQueues, spy_on
+    from miros.event import signals, Event, return_status
+    op = sc['op']
+
+    def side_effect(chart, name):
+        ev = Event(signal=name)
+        getattr(chart, op)(ev)
+
+    @spy_on
+    def waiting(chart, e):
+        if e.signal == signals.ENTRY_SIGNAL or e.signal == signals.INIT_SIGNAL:
+            return return_status.HANDLED
+        if e.signal == signals.EXIT_SIGNAL:
+            side_effect(chart, 'C20_CLEANUP')
+            return return_status.HANDLED
+        if e.signal == signals.C20_GO:
+            return chart.trans(working)
+        chart.temp.fun = chart.top
+        return return_status.SUPER
+
+    @spy_on
+    def working(chart, e):
+        if e.signal == signals.ENTRY_SIGNAL:
+            side_effect(chart, 'C20_RETRY')
+            return return_status.HANDLED
+        if e.signal in (signals.INIT_SIGNAL, signals.EXIT_SIGNAL):
+            return return_status.HANDLED
+        if e.signal == signals.C20_DONE:
+            return chart.trans(waiting)
+        if e.signal in (signals.C20_RETRY, signals.C20_CLEANUP):
+            return return_status.HANDLED
+        chart.temp.fun = chart.top
+        return return_status.SUPER
+    chart = HsmWithQueues()
+    chart.start_at(waiting)
+    n0 = len(chart.full.trace)
+    chart.dispatch(Event(signal=signals.C20_GO))
+    new = [(t.start_state, t.signal, t.end_state) for t in list(chart.full.trace)[n0:]]
+    if new != [('waiting', 'C20_GO', 'working')]:
+        return False, 'C20_GO waiting->working whose exit/entry actions %s other events left the records %s' % (op, new), 'trace'
+    return True, ''
+
+
 def scenarios(seed, tier, failed):
     for what in ('subscribe', 'publish', 'both'):
         yield {'kind': 'ao-meta', 'what': what, 'timeout': 20}
+    for op in ('defer', 'post_fifo', 'post_lifo'):
+        yield {'kind': 'defer-in-actions', 'op': op, 'timeout': 20}
     # long runs: more lines / records than the ring buffers hold, also after clear_spy() / clear_trace()
     for clear in (False, True):
         yield {'kind': 'chart', 'parent': [-1, 0, 0], 'init': [None, None, None], 'start': 1, 'host': 'HsmWithQueues',
@@ -56,6 +104,8 @@ def scenarios(seed, tier, failed):
 def run(sc):
     if sc.get('kind') == 'ao-meta':
         return run_ao_meta(sc)
+    if sc.get('kind') == 'defer-in-actions':
+        return run_defer_in_actions(sc)
     return instr.run_c20(sc)
 
 
